@@ -28,7 +28,15 @@ func c01Oracle(e *txgEnv, tx *common.VersionedTransaction) (string, string) {
 		case len(input.Genesis) > 0:
 			return "genesis-input", fmt.Sprintf("accepted with a genesis input at %d", i)
 		case input.Deposit != nil && input.Mint != nil:
-			return "deposit-and-mint", fmt.Sprintf("input %d carries deposit and mint data", i)
+			// classified, locked and recorded as a mint (mint data has priority
+			// everywhere): the value that enters is the mint amount
+			if len(tx.Inputs) != 1 {
+				return "mint-with-other-inputs", fmt.Sprintf("mint input among %d inputs", len(tx.Inputs))
+			}
+			if tx.Asset != common.XINAssetId {
+				return "mint-asset", "mint of an asset other than XIN"
+			}
+			in.Add(in, mcUnits(input.Mint.Amount))
 		case input.Deposit != nil:
 			if len(tx.Inputs) != 1 {
 				return "deposit-with-other-inputs", fmt.Sprintf("deposit input among %d inputs", len(tx.Inputs))
